@@ -132,6 +132,8 @@ def tlc_mc(spec, cfg, workers=8, timeout=1800, name=None, expect_violation=False
     res = {"cfg": cfg, "generated": int(m.group(1)) if m else 0, "distinct": int(m.group(2)) if m else 0,
            "wall_s": time.time() - t0, "out_file": os.path.join(d, "tlc.out")}
     res["ok"] = "Model checking completed. No error has been found." in out
+    if "-simulate" in extra:
+        res["ok"] = ("Finished in" in out) and ("Error:" not in out)
     res["violated"] = None
     mv = re.search(r"Error: Invariant (\S+) is violated|Error: Action property (\S+) is violated|Error: Temporal properties were violated|Error: Deadlock reached", out)
     if mv:
